@@ -82,12 +82,12 @@ theorem resolve_draft_noloader (env : Env) (hl : env.loader = none) (fuel : Nat)
 theorem resolveRefsLoop_designate (env : Env) (recDoc : ResolveDoc) (hrec : RecSpec env recDoc) (D : Doc)
     (hst : D.st = env.st) (ret : Url) :
     ∀ ids s s', resolveRefsLoop env recDoc D.root ids s = .ok s' → s'.log = s.log →
-      StaticInv D ret s → (∀ id ∈ ids, D.Has id) → D.RefsDesignate ret ids := by
+      StaticInv D ret s → s.draftOf D.root = D.draft → (∀ id ∈ ids, D.Has id) → D.RefsDesignate ret ids := by
   intro ids
   induction ids with
-  | nil => intro s s' _ _ _ _ id hid; simp at hid
+  | nil => intro s s' _ _ _ _ _ id hid; simp at hid
   | cons id rest ih =>
-    intro s s' h hlog hinv hids
+    intro s s' h hlog hinv hdraft hids
     rw [resolveRefsLoop] at h
     split at h
     · simp at h
@@ -114,30 +114,33 @@ theorem resolveRefsLoop_designate (env : Env) (recDoc : ResolveDoc) (hrec : RecS
           simp only [Res.ok.injEq] at h1
           subst h1
           exact ⟨Ext.refl _, fun _ => ⟨Frozen.refl _, fun h => absurd (by simpa using h) hne⟩⟩
-      have g2 : Ext s1 s2 ∧ (s2.log = s1.log → StaticInv D ret s1 → Frozen s1 s2 ∧
-          (n.dynamicRef ≠ "" → ∃ t, D.Designates ret id n.dynamicRef t)) := by
+      have g2 : Ext s1 s2 ∧ (s2.log = s1.log → StaticInv D ret s1 → s1.draftOf D.root = D.draft → Frozen s1 s2 ∧
+          (D.draft = .d2020 → n.dynamicRef ≠ "" → ∃ t, D.Designates ret id n.dynamicRef t)) := by
         split at h2
         · rw [bind_eq_ok] at h2
           obtain ⟨⟨o, sb⟩, hr, h2⟩ := h2
           simp only [Res.ok.injEq] at h2
           subst h2
           refine ⟨(resolveRef_spec env recDoc hrec _ _ _ _ _ _ hr).1.trans (updInfo_same _ _ _).ext, ?_⟩
-          intro hl hinv1
+          intro hl hinv1 _
           rw [(updInfo_same _ _ _).1] at hl
           obtain ⟨_, hfr, hdes⟩ := resolveRef_local env recDoc hrec D hst ret s1 id n.dynamicRef o sb hinv1 hid hr hl
-          exact ⟨hfr.trans (frozen_updInfo _ _ _ (fun _ => rfl)), fun _ => ⟨_, hdes⟩⟩
+          exact ⟨hfr.trans (frozen_updInfo _ _ _ (fun _ => rfl)), fun _ _ => ⟨_, hdes⟩⟩
         · rename_i hne
           simp only [Res.ok.injEq] at h2
           subst h2
-          exact ⟨Ext.refl _, fun _ _ => ⟨Frozen.refl _, fun h => absurd (by simpa using h) hne⟩⟩
+          exact ⟨Ext.refl _, fun _ _ hdr1 => ⟨Frozen.refl _, fun h20 h =>
+            absurd (by rw [hdr1, h20]; simpa using h) hne⟩⟩
       have e3 : Ext s2 s' := (resolveRefsLoop_spec env recDoc hrec _ _ _ _ h).1
       obtain ⟨hl1, hl23⟩ := log_squeeze g1.1 (g2.1.trans e3) hlog
       obtain ⟨hl2, hl3⟩ := log_squeeze g2.1 e3 hl23
       obtain ⟨f1, r1⟩ := g1.2 hl1
       have hinv1 := staticInv_frozen D ret f1 hinv
-      obtain ⟨f2, r2⟩ := g2.2 hl2 hinv1
+      have hdraft1 : s1.draftOf D.root = D.draft := by rw [← hdraft]; exact draftOf_frozen f1 D.root
+      obtain ⟨f2, r2⟩ := g2.2 hl2 hinv1 hdraft1
       have hinv2 := staticInv_frozen D ret f2 hinv1
-      have ok3 := ih s2 s' h hl3 hinv2 (fun x hx => hids x (List.mem_cons_of_mem _ hx))
+      have hdraft2 : s2.draftOf D.root = D.draft := by rw [← hdraft1]; exact draftOf_frozen f2 D.root
+      have ok3 := ih s2 s' h hl3 hinv2 hdraft2 (fun x hx => hids x (List.mem_cons_of_mem _ hx))
       intro x hx n' hn'
       rcases List.mem_cons.mp hx with hx | hx
       · subst hx
@@ -234,7 +237,7 @@ theorem staticInv_afterURIs (env : Env) (root : NodeId) (baseURI : Url) (draft :
     · subst h1; exact Or.inl ⟨rfl, rfl⟩
     · subst h1; exact hrootId
 
-/-- without a Loader: after a successful Schema.Resolve every `$ref` and every `$dynamicRef` of `root.all()`
+/-- without a Loader: after a successful Schema.Resolve every `$ref` and (2020-12) every `$dynamicRef` of `root.all()`
     designates a subschema of the document, read under `topDraft`, with the parsed BaseURI option as retrieval URI -/
 theorem resolve_designates_noloader (env : Env) (hl : env.loader = none) (fuel : Nat) (root : NodeId)
     (base : String) (rs : Resolved) (h : resolve env fuel root base = .ok rs) :
@@ -249,10 +252,13 @@ theorem resolve_designates_noloader (env : Env) (hl : env.loader = none) (fuel :
     obtain ⟨rn, fresh, sB, hrn, hfresh, hB, hC⟩ := resolveDocStep_unfold env _ root b .d2020 {} s hs'
     have hdr : docDraft env rn .d2020 = topDraft env root := (topDraft_eq env root rn hrn).symm
     rw [hdr] at hB
-    obtain ⟨hinv, _, _, _⟩ := staticInv_afterURIs env root b (topDraft env root) fresh {} sB hfresh hB
+    obtain ⟨hinv, ⟨dB, hdB, hdBdr⟩, _, _⟩ := staticInv_afterURIs env root b (topDraft env root) fresh {} sB hfresh hB
       (sound_nil _) (fun e he => absurd he (by simp))
+    have hdraftOf : (afterURIs root b sB).draftOf (topDoc env root).root = (topDoc env root).draft := by
+      show (match sB.doc? root with | some d => d.draft | none => Draft.d2020) = topDraft env root
+      rw [hdB]; exact hdBdr
     exact resolveRefsLoop_designate env _ (resolveDoc_spec env fuel) (topDoc env root) rfl b _ _ _ hC
-      (resolveRefsLoop_noloader env _ hl root _ _ _ hC) hinv
+      (resolveRefsLoop_noloader env _ hl root _ _ _ hC) hinv hdraftOf
       (allNodes_has (topDoc env root) _ _ (by
         intro w hw
         rw [List.mem_singleton.mp hw]
